@@ -12,6 +12,8 @@ import DispatchVerif.Core.IoP4
 import Driver.HeapChk
 import Driver.LaneChk
 import Driver.RootChk
+import Driver.GroupChk
+import Driver.SemaChk
 /-! `dvdriver`: line-protocol driver over the Lean models — the same definitions the theorems are about.
     One operation per line in, one canonical result per line out; the C harnesses answer the same lines with
     the real library and the check diffs the two streams. -/
@@ -231,4 +233,6 @@ def main (args : List String) : IO UInt32 := do
   | ["heap", path] => HeapChk.main path
   | "lane" :: paths => LaneChk.main paths
   | "root" :: paths => RootChk.main paths
+  | "group" :: paths => GroupChk.main paths
+  | "sema" :: paths => SemaChk.main paths
   | _ => loop (← IO.getStdin) (← IO.getStdout); return 0
